@@ -169,8 +169,8 @@ def run(ctx):
     disagreements = 0
     for g in gens:
         cases = ctx.generate('MC_Order', g)
-        if ctx.quick and len(cases) > 6000:
-            cases = ctx.rng.sample(cases, 6000)
+        if ctx.quick and len(cases) > (8000 if 'big' in g else 6000):
+            cases = ctx.rng.sample(cases, 8000 if 'big' in g else 6000)
         if not ctx.quick and len(cases) > (30000 if 'big' in g else 60000):
             cases = ctx.rng.sample(cases, 30000 if 'big' in g else 60000)
         for c in cases:
@@ -195,11 +195,19 @@ def run(ctx):
     bigpool = [tag(v) for v in [BIG - 1, BIG, BIG + 1, BIG + 2, BIG + 3, float(BIG), float(BIG + 2), -BIG, -BIG - 1, -float(BIG), 10 ** 17, 10 ** 17 + 1, 1e17,
                                 2 ** 64, 2 ** 64 + 1, 2.0 ** 64, 1e300, -1e300, 5e-324, 1e-300, 0.1, DMAX, int(DMAX) + 1, 2 ** 31, 10 ** 400, 10 ** 400 + 1, -10 ** 400]]
     rng = ctx.rng
-    n = 250 if ctx.quick else 4000
+    numpool = [t for t in pool if t[0] in ('i', 'f', 'nan')]
+    n = 300 if ctx.quick else 4000
     for i in range(n):
-        sub = rng.sample(pool, rng.choice([2, 3, 5, 8, len(pool)]))
-        if i % 3 == 0:                              # every third round mixes in numbers of large magnitude
-            sub = sub[:rng.choice([0, 2, 4])] + rng.sample(bigpool, rng.choice([2, 3, 6, len(bigpool)]))
+        # four kinds of rounds: any types; numbers and NaNs only (Python's own order never raises TypeError there, so sort's
+        # own choice between the native order and the Cmp key is what decides); large magnitudes mixed in; large numbers and NaNs only
+        if i % 4 == 0:
+            sub = rng.sample(pool, rng.choice([2, 3, 5, 8, len(pool)]))
+        elif i % 4 == 1:
+            sub = rng.sample(numpool, rng.choice([2, 3, 5, len(numpool)]))
+        elif i % 4 == 2:
+            sub = rng.sample(pool, rng.choice([0, 2, 4])) + rng.sample(bigpool, rng.choice([2, 3, 6, len(bigpool)]))
+        else:
+            sub = rng.sample(numpool, rng.choice([1, 2, 4])) + rng.sample(bigpool, rng.choice([2, 3, 6]))
         xs = [rng.choice(sub) for _ in range(rng.choice([0, 1, 2, 5, 9, 14]))]
         if rng.random() < 0.4:
             w = rng.choice([1, 2, 3])
